@@ -1011,6 +1011,14 @@ func (x *swExec) reuseKey() string {
 }
 
 func (x *swExec) oracleRestart() {
+	if x.want("C02") {
+		x.e.log.mu.Lock()
+		next := x.e.log.nextOffset
+		x.e.log.mu.Unlock()
+		if x.anyAcked() && next <= x.maxAcked {
+			x.setFail("offset-reuse-after-restart", fmt.Sprintf("after restart nextOffset=%d but offset %d was acknowledged: acknowledged offsets will be handed out again", next, x.maxAcked))
+		}
+	}
 	if !x.want("C06") && !x.want("C01") {
 		return
 	}
@@ -1049,6 +1057,51 @@ func (x *swExec) anyAcked() bool {
 	return false
 }
 
+// oracleStoredOrder decodes the REAL S3 contents of the partition: every segment (that has an
+// index) body is cut into the accepted record sets the harness knows (matched by their bytes
+// after the 8-byte base offset); the base offsets read from S3 must be strictly increasing
+// within a segment and across segments, and the footer's last offset must be the last stored
+// record set's last offset.
+func (x *swExec) oracleStoredOrder(a swAct) {
+	segs, idx, _ := x.s3view()
+	prevEnd := int64(-1) // last offset stored so far, across segments in key order
+	for _, sg := range segs {
+		if ents, has := idx[sg.base]; !has || ents == nil {
+			continue
+		}
+		body, pos := sg.body, 0
+		lastEnd, decoded := int64(-1), false
+		for pos < len(body) {
+			var hit *swAccepted
+			for _, acc := range x.accepted {
+				n := len(acc.stored)
+				if n >= 61 && pos+n <= len(body) && bytes.Equal(body[pos+8:pos+n], acc.stored[8:]) {
+					hit = acc
+					break
+				}
+			}
+			if hit == nil {
+				break // bytes the harness cannot attribute: stop decoding this segment
+			}
+			base := int64(binary.BigEndian.Uint64(body[pos : pos+8]))
+			lod := int64(int32(binary.BigEndian.Uint32(body[pos+23 : pos+27])))
+			if base <= prevEnd {
+				x.setFail("stored-batches-out-of-order", fmt.Sprintf("S3 segment %d: the record set at body position %d has base offset %d but offsets up to %d are stored before it (action %s t=%d)", sg.base, pos, base, prevEnd, a.K, a.T))
+			}
+			if lod >= 0 {
+				prevEnd = base + lod
+			} else {
+				prevEnd = base
+			}
+			lastEnd, decoded = prevEnd, true
+			pos += len(hit.stored)
+		}
+		if decoded && pos == len(body) && sg.last != lastEnd {
+			x.setFail("footer-last-offset-mismatch", fmt.Sprintf("S3 segment %d: footer says last offset %d but the last stored record set ends at %d (action %s t=%d)", sg.base, sg.last, lastEnd, a.K, a.T))
+		}
+	}
+}
+
 // evaluated after every action
 func (x *swExec) oracleStep(a swAct, prevStore int64) {
 	x.lockWorld()
@@ -1072,6 +1125,9 @@ func (x *swExec) oracleStep(a swAct, prevStore int64) {
 				x.setFail(key, fmt.Sprintf("batch acknowledged with base offset %d is not in any S3 segment that has an index (after action %s t=%d)", acc.base, a.K, a.T))
 			}
 		}
+	}
+	if x.want("C02") {
+		x.oracleStoredOrder(a)
 	}
 	if x.want("C02") && x.live {
 		// no gap between acknowledged batches: an accepted batch that precedes an
@@ -1498,7 +1554,7 @@ func swGenDriven(r *vRand, prop string, maxActs int) swCase {
 			cs.Plan = append(cs.Plan, swAct{K: "seg", T: t, Ok: true}, swAct{K: "idx", T: t, Ok: true}, swAct{K: "cb", T: t, Ok: true}, swAct{K: "respond", T: t})
 		}
 	}
-	if prop == "C06" || r.Chance(20) {
+	if prop == "C06" || (prop == "C02" && r.Chance(50)) || r.Chance(20) {
 		cs.Plan = append(cs.Plan, swAct{K: "crash"}, swAct{K: "restart", Ok: true}, swAct{K: "produce", T: 0, Raw: swBatch(0, 1, 0, 3, 0xEE)}, swAct{K: "flush", T: 0},
 			swAct{K: "seg", T: 0, Ok: true}, swAct{K: "idx", T: 0, Ok: true}, swAct{K: "cb", T: 0, Ok: true}, swAct{K: "respond", T: 0})
 	}
@@ -1569,6 +1625,10 @@ func swCorpus2() []swCase {
 		// the committed offset; callbacks A then B (no regression allowed), then the reverse
 		{Interval: 1, Plan: cat(full(2, b(1)), []swAct{P(1, b(2)), P(0, b(3)), F(0), F(1), S(0, true), I(0, true), C(0, true), C(1, true), R(0), R(1)})},
 		{Interval: 1, Plan: cat(full(2, b(1)), []swAct{P(1, b(2)), P(0, b(3)), F(0), F(1), I(0, true), S(0, true), C(1, true), C(0, true), R(1), R(0)})},
+		// upload failure with a produce to the same partition during that upload, retried flush
+		// (re-queued batches must come BEFORE the ones appended meanwhile), restart, append
+		{Interval: 1, Plan: cat(full(2, swBatch(2, 3, 0, 2, 0x41)), []swAct{P(0, swBatch(1, 2, 0, 3, 0x42)), F(0), P(1, b(0x43)), S(0, false), I(0, true), R(0), F(1), S(1, true), I(1, true), C(1, true), R(1),
+			{K: "crash"}, {K: "restart", Ok: true}}, full(0, b(0x44)))},
 		// restart of partition 1 next to partitions 10 and 13 that hold more data (store behind S3, incl. 0)
 		{Interval: 1, Foreign: true, Plan: cat(full(0, b(1)), []swAct{{K: "crash"}, {K: "restart", Ok: true}}, []swAct{P(1, b(2)), F(1), S(1, true), I(1, true), C(1, false), R(1)},
 			[]swAct{{K: "crash"}, {K: "restart", Ok: false}}, full(2, b(3)), []swAct{{K: "crash"}, {K: "restart", Ok: true}}, full(0, b(4)))},
